@@ -52,6 +52,7 @@
 #define _VAR_CLOSE  '}'
 #define _VAR_CMD    '!'
 #define _VAR_ENV    '%'
+#define _MAX_EXPANSION  (16 * 1024 * 1024)  // limit of text produced per value
 
 /* internal functions */
 static char *_parsestr(qlisttbl_t *tbl, const char *str);
@@ -331,6 +332,7 @@ static char *_parsestr(qlisttbl_t *tbl, const char *str) {
     }
 
     bool loop;
+    size_t produced = 0;  // amount of text produced by replacements so far
     char *value = strdup(str);
     do {
         loop = false;
@@ -415,6 +417,13 @@ static char *_parsestr(qlisttbl_t *tbl, const char *str) {
             free(varstr);
             free(value);
             value = s;
+
+            // self- or mutually-referential variables never reach a fixed
+            // point, so the text produced for one value is limited.
+            produced += strlen(value) + 1;
+            if (produced > _MAX_EXPANSION) {
+                return value;
+            }
 
             loop = true;
             break;
